@@ -42,6 +42,12 @@ fn run_line(line: &str) -> String {
         "hll_hex" => codec::cmd_hll_hex(&mut t),
         "hll_env" => codec::cmd_hll_env(&mut t),
         "hex" => codec::cmd_hex(&mut t),
+        "conc" => {
+            let root = std::env::var("VERIF_RUN_DIR").unwrap_or_else(|_| "/verif/.cache/run".to_string());
+            let root = std::path::PathBuf::from(root);
+            let _ = std::fs::create_dir_all(&root);
+            db::cmd_conc(&mut t, &root, line)
+        }
         "refs" => {
             let root = std::env::var("VERIF_RUN_DIR").unwrap_or_else(|_| "/verif/.cache/run".to_string());
             let root = std::path::PathBuf::from(root);
